@@ -493,6 +493,16 @@ class MessageManager(ClientLike):
 
         # Read Data Section
         data_size = self.header.num_data_bytes
+        if data_size < 0 or data_size > len(self.data_buffer):
+            # A declared length we can not receive: the stream can not be
+            # resynchronized, so drop the offending client only.
+            mod = self.modules[sock]
+            self.remove_module(mod)
+            self.logger.warning(
+                f"DROPPING - {mod!s} - Invalid num_data_bytes in header: {data_size}."
+            )
+            return False
+
         if data_size:
             nbytes = sock.recv_into(self.data_buffer, data_size, socket.MSG_WAITALL)
 
